@@ -30,9 +30,16 @@ type c06Pkt struct {
 	Pns  string `json:"pns"`
 	Addr string `json:"addr"`
 }
+type c06Disp struct {
+	After int    `json:"after"` // routes registered before this dispatch
+	Pkt   c06Pkt `json:"pkt"`
+}
 type c06Scen struct {
 	Table []c06Route `json:"table"`
 	Pkt   c06Pkt     `json:"pkt"`
+	// history mode: ONE router; the routes of Table are registered one by one and the packets of Disp are dispatched
+	// in between (Disp[i] after the first Disp[i].After routes)
+	Disp []c06Disp `json:"disp,omitempty"`
 }
 
 var c06NS = map[string]string{"A": "jabber:iq:version", "B": "http://jabber.org/protocol/disco#info"}
@@ -103,6 +110,58 @@ func c06Wire(p c06Pkt, id, from, to string) string {
 }
 
 func c06Run(w *tr.Writer, tid int, s c06Scen, rng *rand.Rand) error {
+	if len(s.Disp) > 0 {
+		r := xmpp.NewRouter()
+		var mu sync.Mutex
+		invoked := []int{}
+		reg := 0
+		for _, d := range s.Disp {
+			for reg < d.After && reg < len(s.Table) {
+				c06Register(r, s.Table[reg], reg+1, &mu, &invoked)
+				reg++
+			}
+			mu.Lock()
+			invoked = invoked[:0]
+			mu.Unlock()
+			one := c06Scen{Table: s.Table[:reg], Pkt: d.Pkt}
+			if err := c06Dispatch(w, tid, one, rng, r, &mu, &invoked); err != nil {
+				return err
+			}
+		}
+		return nil
+	}
+	r := xmpp.NewRouter()
+	var mu sync.Mutex
+	invoked := []int{}
+	for i, rt := range s.Table {
+		c06Register(r, rt, i+1, &mu, &invoked)
+	}
+	return c06Dispatch(w, tid, s, rng, r, &mu, &invoked)
+}
+
+func c06Register(r *xmpp.Router, rt c06Route, idx int, mu *sync.Mutex, invoked *[]int) {
+	route := r.NewRoute()
+	if rt.Name != "-" {
+		route.Packet(rt.Name)
+	}
+	if !(len(rt.Types) == 1 && rt.Types[0] == "*") {
+		route.StanzaType(append([]string{}, rt.Types...)...)
+	}
+	if !(len(rt.Ns) == 1 && rt.Ns[0] == "*") {
+		ns := []string{}
+		for _, n := range rt.Ns {
+			ns = append(ns, c06NS[n])
+		}
+		route.IQNamespaces(ns...)
+	}
+	route.HandlerFunc(func(s xmpp.Sender, p stanza.Packet) {
+		mu.Lock()
+		*invoked = append(*invoked, idx)
+		mu.Unlock()
+	})
+}
+
+func c06Dispatch(w *tr.Writer, tid int, s c06Scen, rng *rand.Rand, r *xmpp.Router, mu *sync.Mutex, invokedP *[]int) error {
 	id := fmt.Sprintf("q%d", rng.Intn(100000))
 	from := fmt.Sprintf("peer%d@example.net/r", rng.Intn(1000))
 	to := fmt.Sprintf("me%d@example.org/x", rng.Intn(1000))
@@ -114,31 +173,6 @@ func c06Run(w *tr.Writer, tid int, s c06Scen, rng *rand.Rand) error {
 	pkt, err := stanza.NextPacket(dec)
 	if err != nil {
 		return fmt.Errorf("harness packet does not parse: %v: %s", err, wire)
-	}
-	r := xmpp.NewRouter()
-	var mu sync.Mutex
-	invoked := []int{}
-	for i, rt := range s.Table {
-		route := r.NewRoute()
-		if rt.Name != "-" {
-			route.Packet(rt.Name)
-		}
-		if !(len(rt.Types) == 1 && rt.Types[0] == "*") {
-			route.StanzaType(append([]string{}, rt.Types...)...)
-		}
-		if !(len(rt.Ns) == 1 && rt.Ns[0] == "*") {
-			ns := []string{}
-			for _, n := range rt.Ns {
-				ns = append(ns, c06NS[n])
-			}
-			route.IQNamespaces(ns...)
-		}
-		idx := i + 1
-		route.HandlerFunc(func(s xmpp.Sender, p stanza.Packet) {
-			mu.Lock()
-			invoked = append(invoked, idx)
-			mu.Unlock()
-		})
 	}
 	snd := &recSender{}
 	panicked := false
@@ -204,6 +238,9 @@ func c06Run(w *tr.Writer, tid int, s c06Scen, rng *rand.Rand) error {
 	if s.Table == nil {
 		s.Table = []c06Route{}
 	}
+	mu.Lock()
+	invoked := append([]int{}, (*invokedP)...)
+	mu.Unlock()
 	w.Emit(tr.Rec{"ev": "route", "tid": tid, "table": s.Table, "pkt": s.Pkt, "invoked": invoked, "replies": replies, "panic": panicked})
 	return nil
 }
